@@ -115,9 +115,14 @@ def build(desc, want_impl=True):
         else:
             raise ValueError(kind)
         B, rB = sc.build(tb, desc["sb"], desc["ob"], cB, mB, want_impl=want_impl)
-    L = max(1.0, rA.size(), rB.size(), float(np.linalg.norm(rA.centre())), float(np.linalg.norm(rB.centre())),
-            float(np.linalg.norm(rA.centre() - rB.centre())))
+    # L = "size scale of the pair" (C01): feature sizes and mutual centre distance; the position in the world does not enter
+    # (until this was measured to hold on the unchanged tree for C01, C02, C07-C09 and C12, the looser max with the distance
+    # from the origin was used; VERIF_L_WORLD=1 restores it for experiments)
+    L = max(1.0, rA.size(), rB.size(), float(np.linalg.norm(rA.centre() - rB.centre())))
     truth["L"] = L
+    truth["L_world"] = max(L, float(np.linalg.norm(rA.centre())), float(np.linalg.norm(rB.centre())))
+    if __import__("os").environ.get("VERIF_L_WORLD"):
+        truth["L"] = truth["L_world"]
     if kind == "pen":
         # certify the overlap by an inscribed ball: a point with a ball of radius rho inside both shapes is a common point of depth rho
         best, bp = 0.0, None
